@@ -73,6 +73,7 @@ CL_CSCND = None
 CL_CSCCOUNT = None
 CL_EINSUM_ZEROS = "einsum_result_stores_explicit_zeros"
 
+CASE_KEYS = ("op", "a", "ka", "b", "kb", "rt", "axes", "sub", "axis", "dta", "dtb", "idx")
 PER_CASE_TIMEOUT = 15.0     # vlib allows 4x this per case (see run_impl): 60 s; JIT compilation of a kernel chain under load takes 10-25 s
 
 
@@ -84,15 +85,32 @@ def _np():
 
 def _dense(spec, dt):
     np = _np()
+    if spec.get("gen"):         # large operands are described by a seed: [seed, density, lo, hi]
+        seed, density, lo, hi = spec["gen"]
+        g = np.random.default_rng(seed)
+        x = g.integers(lo, hi + 1, size=tuple(spec["shape"])).astype(np.int64)
+        x[g.random(tuple(spec["shape"])) >= density] = 0
+        return x.astype(dt)
     d = np.zeros(tuple(spec["shape"]), dtype=dt)
     for c, v in zip(spec["coords"], spec["data"], strict=True):
         d[tuple(c)] = v
     return d
 
 
-def _mk(d, kind, caxes):
+def _mk(d, kind, caxes, idx=None):
     import scipy.sparse as sps
     import sparse
+    np = _np()
+    if idx and kind in ("coo", "gcxs"):
+        # coordinates in a narrow index dtype (every axis fits; the number of stored elements need not)
+        nz = np.nonzero(d)
+        x = sparse.COO(np.stack(nz), d[nz], shape=d.shape, idx_dtype=np.dtype(idx))
+        assert x.coords.dtype == np.dtype(idx)
+        if kind == "coo":
+            return x
+        if d.ndim >= 2 and caxes is not None:
+            return sparse.GCXS.from_coo(x, compressed_axes=tuple(caxes))
+        return sparse.GCXS.from_coo(x)
     if kind == "coo":
         return sparse.COO.from_numpy(d)
     if kind == "gcxs":
@@ -199,8 +217,8 @@ def impl_api(case):
     except Exception as ex:  # noqa: BLE001
         e = ex
     out["np"] = _plain(e if isinstance(e, (BaseException, np.ndarray)) else np.asarray(e))
-    a = _mk(da, case["ka"], case["a"].get("caxes"))
-    b = _mk(db, case["kb"], case["b"].get("caxes")) if db is not None else None
+    a = _mk(da, case["ka"], case["a"].get("caxes"), case.get("idx"))
+    b = _mk(db, case["kb"], case["b"].get("caxes"), case.get("idx")) if db is not None else None
     try:
         if op == "tensordot":
             r = sparse.tensordot(a, b, axes=_axes(case["axes"]), return_type=_rt(case.get("rt")))
@@ -497,11 +515,12 @@ def api_cases(tier, rng, budget=1):
     cases = []
     quick = tier == "quick"
 
-    def add(op, a, ka, b, kb, rt=None, axes=None, sub=None, axis=None, dta="int64", dtb="int64", tag=None, follow=True):
+    def add(op, a, ka, b, kb, rt=None, axes=None, sub=None, axis=None, dta="int64", dtb="int64", tag=None, follow=True,
+            idx=None):
         sa, ka2 = with_kind(rng, a, ka)
         sb, kb2 = (with_kind(rng, b, kb) if b is not None else (None, None))
         cases.append({"op": op, "a": sa, "ka": ka2, "b": sb, "kb": kb2, "rt": rt, "axes": axes, "sub": sub, "axis": axis,
-                      "dta": dta, "dtb": dtb, "kin": (ka, kb), "tag": tag or op, "follow": follow})
+                      "dta": dta, "dtb": dtb, "kin": (ka, kb), "tag": tag or op, "follow": follow, "idx": idx})
 
     # ---- 2-d x 2-d products, exhaustive over kind pairs x return types on a few shapes incl. zero extents
     ext = [0, 1, 2, 3]
@@ -656,6 +675,29 @@ def api_cases(tier, rng, budget=1):
         for (ka, kb) in (("csr", "coo"), ("coo", "csr")):
             sh_b = (3, 2) if op == "einsum" else (2, 3)
             add(op, rand_spec(rng, (2, 3), 0.7), ka, rand_spec(rng, sh_b, 0.7), kb, tag="scipy_other", follow=False, **kw)
+    # ---- narrow index dtypes: every axis fits the coordinate dtype, the number of stored elements does not
+    #      (row pointers and other counters must not be kept in the coordinate dtype)
+    def gen_spec(shape, density):
+        return {"shape": list(shape), "coords": [], "data": [], "fill": 0, "gen": [rng.randrange(1 << 30), density, 1, 3]}
+    narrow = []
+    kp = [("coo", "coo"), ("coo", "gcxs"), ("gcxs", "coo"), ("gcxs", "gcxs"), ("coo", "nd"), ("nd", "coo"), ("gcxs", "nd"), ("nd", "gcxs")]
+    for idx, da_, pb in (("int8", 0.7, 6), ("uint8", 0.95, 10)):      # 20x30: > 127 resp. > 255 stored; b: 30 x pb
+        for t, (ka, kb) in enumerate(kp if not quick else kp[:6]):
+            op = ("dot", "matmul", "tensordot")[t % 3]
+            rt = (None, "coo", "gcxs", "nd")[t % 4] if op == "tensordot" else None
+            narrow.append((op, gen_spec((20, 30), da_), ka, gen_spec((30, pb), 1.0), kb, rt, [[1], [0]], idx))
+        # COO @ COO with every return type
+        for rt in RTS:
+            narrow.append(("tensordot", gen_spec((20, 30), da_), "coo", gen_spec((30, pb), 1.0), "coo", rt, [[1], [0]], idx))
+        # 3-d operands through tensordot (the 2-d views keep the narrow dtype)
+        for (ka, kb) in (("coo", "coo"), ("coo", "gcxs")) if quick else kp[:4]:
+            narrow.append(("tensordot", gen_spec((6, 7, 8), 0.95 if idx == "uint8" else 0.7), ka,
+                           gen_spec((8, 7, 5), 1.0), kb, rng.choice(RTS), [[2, 1], [0, 1]], idx))
+    # int16, sparingly: 182 x 182 fully stored = 33124 > 32767
+    for (ka, kb) in ((("coo", "coo"),) if quick else (("coo", "coo"), ("coo", "gcxs"), ("gcxs", "gcxs"))):
+        narrow.append(("dot", gen_spec((182, 182), 1.0), ka, gen_spec((182, 2), 1.0), kb, None, [[1], [0]], "int16"))
+    for (op, a_, ka, b_, kb, rt, axes, idx) in narrow:
+        add(op, a_, ka, b_, kb, rt=rt, axes=axes, tag="narrow_idx/" + idx, follow=False, idx=idx)
     # ---- malformed: mismatching contracted extents (must raise like NumPy)
     for _ in range(30 if quick else 200):
         m, n, n2, p = rng.choice([1, 2, 3]), rng.choice([1, 2, 3]), rng.choice([1, 2, 3, 4]), rng.choice([1, 2, 3])
@@ -752,7 +794,7 @@ def kindreq_of(case):
 
 def flags_of(case):
     """1: 2-d x 2-d product (Spec evaluated in Coq); 2/3: + exact GCXS model (compressed axes 0/1)"""
-    if case["op"] not in ("tensordot", "dot", "matmul", "at") or case["b"] is None:
+    if case["op"] not in ("tensordot", "dot", "matmul", "at") or case["b"] is None or case.get("idx"):
         return 0
     if len(case["a"]["shape"]) != 2 or len(case["b"]["shape"]) != 2:
         return 0
@@ -786,7 +828,7 @@ API_CODES = {10: "hang", 11: "ZeroDivisionError", 12: "exception", 13: "returned
 
 
 def nnz_of(spec):
-    return len(spec["data"])
+    return len(spec["data"]) or (1 if spec.get("gen") else 0)
 
 
 def classify_api(case, code, r):
@@ -856,7 +898,7 @@ def route_csc_nd_sparse(case, r=None):
 
 
 def replay_api(case):
-    c = {k: case[k] for k in ("op", "a", "ka", "b", "kb", "rt", "axes", "sub", "axis", "dta", "dtb")}
+    c = {k: case.get(k) for k in CASE_KEYS}
     return ("import sys, json; sys.path.insert(0, '/verif/tools'); import props.c04 as m; "
             f"print(json.dumps(m.impl_api({c!r}), default=str)[:2000])")
 
@@ -969,7 +1011,7 @@ def campaign(build, tier, seed, report, budget=1):
                      "code": code, "what": {22: "Spec np_einsum1 (evaluated in Coq) differs from np.einsum",
                                             20: "sparse.einsum differs from np.einsum / the Spec", 10: "hang",
                                             12: "exception"}.get(code, str(code)),
-                     "case": {k: c[k] for k in ("op", "a", "ka", "b", "kb", "rt", "axes", "sub", "axis", "dta", "dtb")},
+                     "case": {k: c.get(k) for k in CASE_KEYS},
                      "impl": r.get("r"), "numpy": r.get("np"), "replay_py": replay_api(c)})
     bad_main = {}
     unpruned = []
@@ -987,7 +1029,7 @@ def campaign(build, tier, seed, report, budget=1):
             tag("verdict/" + API_CODES.get(code, str(code)) + ("/" + clause if clause else ""))
             viol.append({"property": "C04", "op": c["op"], "kind": kind, "clause": clause, "code": code,
                          "what": API_CODES.get(code, str(code)), "kinds": list(c["kin"]), "return_type": c.get("rt"),
-                         "case": {k: c[k] for k in ("op", "a", "ka", "b", "kb", "rt", "axes", "sub", "axis", "dta", "dtb")},
+                         "case": {k: c.get(k) for k in CASE_KEYS},
                          "impl": r.get("r", r), "numpy": r.get("np"), "replay_py": replay_api(c)})
     for j, code in abad:
         i, f = owners[j]
@@ -1002,7 +1044,7 @@ def campaign(build, tier, seed, report, budget=1):
         viol.append({"property": "C04", "op": c["op"] + "_then_slice", "kind": "value", "clause": clause, "code": code,
                      "what": f"(a {c['op']} b)[:, {f['lo']}:{f['hi']}] differs from NumPy's", "kinds": list(c["kin"]),
                      "return_type": c.get("rt"),
-                     "case": {k: c[k] for k in ("op", "a", "ka", "b", "kb", "rt", "axes", "sub", "axis", "dta", "dtb")},
+                     "case": {k: c.get(k) for k in CASE_KEYS},
                      "slice": [f["lo"], f["hi"]], "impl": f["r"], "numpy": f["np"], "product": r.get("r"),
                      "replay_py": replay_api(c)})
     if unpruned:
@@ -1013,13 +1055,13 @@ def campaign(build, tier, seed, report, budget=1):
         tag("verdict/dtype")
         viol.append({"property": "C04", "op": c["op"], "kind": "value", "clause": "result_dtype_differs_from_numpy", "code": 40,
                      "what": f"dtype {got}, NumPy {want}", "kinds": list(c["kin"]), "return_type": c.get("rt"),
-                     "case": {k: c[k] for k in ("op", "a", "ka", "b", "kb", "rt", "axes", "sub", "axis", "dta", "dtb")},
+                     "case": {k: c.get(k) for k in CASE_KEYS},
                      "replay_py": replay_api(c)})
 
     # -------- coverage
     def nontrivial(c):
         return nnz_of(c["a"]) > 0 and (c["b"] is None or nnz_of(c["b"]) > 0)
-    distinct = {json.dumps([c["op"], c["a"]["shape"], c["a"]["coords"], c["a"]["data"], c["ka"], c["a"].get("caxes"),
+    distinct = {json.dumps([c["op"], c.get("idx"), c["a"].get("gen"), c["a"]["shape"], c["a"]["coords"], c["a"]["data"], c["ka"], c["a"].get("caxes"),
                             None if c["b"] is None else [c["b"]["shape"], c["b"]["coords"], c["b"]["data"], c["kb"], c["b"].get("caxes")],
                             c.get("rt"), c.get("axes"), c.get("sub"), c.get("axis"), c.get("dta"), c.get("dtb")])
                 for c in ac if nontrivial(c)}
